@@ -347,6 +347,8 @@ Definition api_send (p : prio) (c : ctrl) : bool :=
   | PNormal, CContinueTGR => false               (* internal control, never sent *)
   | PNormal, _ => true
   | PHigh, CNextEnding => true
+  | PHigh, CDelete => true                      (* the last Job handle is dropped: the closed channel is noticed once the
+                                                   urgent and high lanes are drained, before anything of the normal lane *)
   | PUrgent, CStop | PUrgent, CDelete => true
   | _, _ => false
   end.
@@ -539,7 +541,7 @@ Section Env5.
 
   Lemma api_urgent c : api_send PUrgent c = true -> c = CStop \/ c = CDelete.
   Proof. destruct c; cbn; intro H; try discriminate; auto. Qed.
-  Lemma api_high c : api_send PHigh c = true -> c = CNextEnding.
+  Lemma api_high c : api_send PHigh c = true -> c = CNextEnding \/ c = CDelete.
   Proof. destruct c; cbn; intro H; try discriminate; auto. Qed.
   Lemma api_normal c : api_send PNormal c = true -> c <> CContinueTGR.
   Proof. destruct c; cbn; intro H; try discriminate; intro X; discriminate. Qed.
@@ -568,11 +570,11 @@ Section Env5.
       destruct p; cbn [queue] in Hq; repeat split; cbn [qu qh qn out emit set_queues]; try assumption;
         intros c' f' H'; [eapply An | eapply Ah | eapply Au]; rewrite Hq; right; exact H'. }
     assert (match c with CGracefulStop _ _ | CTryGracefulRestart _ _ => timer w1 = None /\ on_end_restart w1 = None | _ => True end) as Pre.
-    { destruct c; try exact I; (destruct p; [|apply api_high in Sc; discriminate | apply api_urgent in Sc; destruct Sc; discriminate]);
+    { destruct c; try exact I; (destruct p; [|apply api_high in Sc; destruct Sc; discriminate | apply api_urgent in Sc; destruct Sc; discriminate]);
         rewrite T1, R1; (split; [apply Hn; reflexivity|]);
         destruct (on_end_restart w) as [g|] eqn:Ho; try reflexivity; destruct (Jo_ g Ho) as (d & Td); rewrite (Hn eq_refl) in Td; discriminate. }
     assert (c <> CContinueTGR) as NC.
-    { destruct p; [apply api_normal; exact Sc | apply api_high in Sc; subst; discriminate | apply api_urgent in Sc; destruct Sc; subst; discriminate]. }
+    { destruct p; [apply api_normal; exact Sc | apply api_high in Sc; destruct Sc; subst; discriminate | apply api_urgent in Sc; destruct Sc; subst; discriminate]. }
     (* queues *)
     assert (ext w1 (handle E fixed w1 c f)) as X by apply ext_handle.
     split.
